@@ -15,8 +15,11 @@ Part C (index arithmetic, `Gen/Prism.lean` + `Model/Prism.lean`): `wrapped_slice
 every start (any number of periods outside the array); `wrapped_crop_2d` returns the periodic 2-D window through either
 of its paths; the pipeline `minimum_crop → wrapped_crop_2d → batch_crop_2d` gives every position its own periodic window
 independently of the batch.  Interpolation > 1 stays `_partial` (physical statement): see the end of the file.
+Part D (Pattern A, `Model/PrismEnsemble.lean`): the per-configuration loop of the eager S-matrix path returns what the lazy
+path returns — mean over configurations for measurements, every configuration's exit wave for waves.
 -/
 import AbtemVerif.Model.Prism
+import AbtemVerif.Model.PrismEnsemble
 import AbtemVerif.Gen.PrismR
 import AbtemVerif.Lib.DFT
 import Mathlib.Analysis.SpecialFunctions.Complex.Circle
@@ -650,6 +653,69 @@ theorem reduce_window_partial {κ : Type} (K : Finset κ) (c : κ → ℂ) (S : 
   reduce_windows_index _ n₀ n₁ h₀ h₁ w hw₀ hw₁ pixel hp
 
 end Crop
+
+/-! ## Part D — frozen-phonon bookkeeping of the eager S-matrix path -/
+section Ensemble
+open AbtemVerif.PrismEnsemble
+
+lemma foldl_set_prefix {β : Type} (rs init : List β) (d : β) (h : init.length = rs.length) (k : Nat) (hk : k ≤ rs.length) :
+    (List.range k).foldl (fun (m : List β) i => m.set i (rs.getD i d)) init = rs.take k ++ init.drop k := by
+  induction k with
+  | zero => simp
+  | succ k ih =>
+    rw [List.range_succ, List.foldl_append, ih (by omega)]
+    simp only [List.foldl_cons, List.foldl_nil]
+    have hk' : k < rs.length := by omega
+    have htake : (rs.take k).length = k := by simp; omega
+    rw [List.set_append_right _ _ (by omega), htake, Nat.sub_self]
+    have hd : init.drop k = (init[k]'(by omega)) :: init.drop (k + 1) := by
+      rw [List.drop_eq_getElem_cons]
+    rw [hd, List.set_cons_zero, List.take_succ_eq_append_getElem hk', List.append_assoc]
+    simp [List.getD_eq_getElem?_getD, List.getElem?_eq_getElem hk']
+
+theorem eager_keeps_every_configuration (mean isWaves : Bool) (m : Nat) (rs : List Arr) (h : (mean && !isWaves) = false) :
+    eagerDetect mean isWaves m rs = rs := by
+  unfold eagerDetect
+  simp only [h, Bool.false_eq_true, if_false]
+  have := foldl_set_prefix rs (List.replicate rs.length (zeros m)) [] (by simp) rs.length (le_refl _)
+  simpa using this
+
+lemma foldl_accumulate (rs : List Arr) (z : Arr) (k : Nat) (hk : k ≤ rs.length) :
+    (List.range k).foldl (fun (meas : List Arr) i => meas.map (fun row => addArr row (rs.getD i []))) [z]
+      = [(rs.take k).foldl addArr z] := by
+  induction k with
+  | zero => simp
+  | succ k ih =>
+    have hk' : k < rs.length := by omega
+    rw [List.range_succ, List.foldl_append, ih (by omega)]
+    simp only [List.foldl_cons, List.foldl_nil, List.map_cons, List.map_nil]
+    rw [List.take_succ_eq_append_getElem hk', List.foldl_append]
+    simp [List.getD_eq_getElem?_getD, List.getElem?_eq_getElem hk']
+
+/-- the eager per-block bookkeeping gives exactly what the lazy path / `Probe.multislice` + `reduce_ensemble` give: the
+mean over the configurations for measurements on a mean-flagged axis, every configuration's result otherwise — in
+particular complex exit waves are never averaged. For every number of configurations and every results. -/
+theorem eager_eq_reference (mean isWaves : Bool) (m : Nat) (rs : List Arr) :
+    eagerDetect mean isWaves m rs = referenceDetect mean isWaves m rs := by
+  by_cases h : (mean && !isWaves) = true
+  · unfold eagerDetect referenceDetect referenceDetect.divArr'
+    simp only [h, if_true]
+    have := foldl_accumulate rs (zeros m) rs.length (le_refl _)
+    simp only [List.take_length] at this
+    rw [show List.replicate 1 (zeros m) = [zeros m] from rfl, this]
+    split_ifs <;> simp
+  · have h' : (mean && !isWaves) = false := by simpa using h
+    rw [eager_keeps_every_configuration mean isWaves m rs h']
+    unfold referenceDetect
+    simp [h']
+
+/-- what the pinned tree did (defect repaired by /repo f4e1cd1b): treating exit waves like a measurement collapses the
+ensemble to one row, so with two or more configurations the per-configuration exit waves are lost -/
+lemma legacy_averaging_loses_configurations (m : Nat) (rs : List Arr) :
+    (eagerDetect true false m rs).length = 1 := by
+  rw [eager_eq_reference]; simp [referenceDetect]
+
+end Ensemble
 
 /-! ### non-vacuity -/
 example : ∃ k, (![1, Complex.I] : Fin 2 → ℂ) k ≠ 0 := ⟨0, by simp⟩
